@@ -32,6 +32,44 @@ theorem contains_unary_spec (T : Tables α) (mask : Array Bool) (N : Nat)
       (b = true ↔ ∃ pos p, aget mask p = false ∧ numChildrenAt T pos p = 1) :=
   containsUnary_correct T mask N (valid_of_validB T hV) (parents_below T N hN)
 
+/-- **The wrapper `contains_unary_nodes(ts, skip_samples=True)` looks at the sample bit only**
+(what `variational_gamma` calls with `allow_unary=False`): it returns `True` exactly when some node
+whose flags word has bit 0 (`NODE_IS_SAMPLE`) **clear** has exactly one child somewhere — whatever the
+other bits of any node's flags are. -/
+theorem wrapper_spec (T : Tables α) (flags : Array Nat)
+    (hV : validB T = true) (hN : nodesBelowB T flags.size = true) :
+    ∃ b, containsUnaryNodes T flags true = some b ∧
+      (b = true ↔ ∃ pos p, aget flags p % 2 ≠ 1 ∧ numChildrenAt T pos p = 1) := by
+  obtain ⟨b, hb, hiff⟩ := contains_unary_spec T (wrapperMask flags true) flags.size hV hN
+  refine ⟨b, hb, ?_⟩
+  rw [hiff]
+  have hm : ∀ p, aget (wrapperMask flags true) p = false ↔ aget flags p % 2 ≠ 1 := by
+    intro p
+    simp only [wrapperMask, aget, Array.getElem?_map, Bool.true_and]
+    by_cases hp : p < flags.size
+    · simp [hp, sampleBit]
+    · simp [hp]
+  constructor
+  · rintro ⟨pos, p, h1, h2⟩; exact ⟨pos, p, (hm p).mp h1, h2⟩
+  · rintro ⟨pos, p, h1, h2⟩; exact ⟨pos, p, (hm p).mpr h1, h2⟩
+
+/-- Flag bits other than bit 0 cannot change the wrapper's answer: two flags columns that agree on
+the sample bit give the same result. -/
+theorem wrapper_ignores_other_bits (T : Tables α) (flags flags' : Array Nat)
+    (hsz : flags.size = flags'.size) (hbit : ∀ p, aget flags p % 2 = aget flags' p % 2)
+    (hV : validB T = true) (hN : nodesBelowB T flags.size = true) :
+    containsUnaryNodes T flags true = containsUnaryNodes T flags' true := by
+  obtain ⟨b, hb, hiff⟩ := wrapper_spec T flags hV hN
+  obtain ⟨b', hb', hiff'⟩ := wrapper_spec T flags' hV (hsz ▸ hN)
+  rw [hb, hb']
+  congr 1
+  have : b = true ↔ b' = true := by
+    rw [hiff, hiff']
+    constructor
+    · rintro ⟨pos, p, h1, h2⟩; exact ⟨pos, p, by rw [← hbit p]; exact h1, h2⟩
+    · rintro ⟨pos, p, h1, h2⟩; exact ⟨pos, p, by rw [hbit p]; exact h1, h2⟩
+  cases b <;> cases b' <;> simp_all
+
 /-- **The tree-iterator detector is exact** (discrete-time clause of C30): testing, at the left end
 of every tree, the parents of the edges that change there finds a node with exactly one child
 whenever there is one at any position. -/
@@ -53,6 +91,15 @@ theorem detectors_agree (T : Tables α) (mask : Array Bool) (N : Nat)
     · rintro ⟨pos, p, _, h⟩; exact ⟨pos, p, h⟩
     · rintro ⟨pos, p, h⟩; exact ⟨pos, p, hm p, h⟩
   cases b <;> cases h : hasLocallyUnary T <;> simp_all
+
+/-- With `skip_samples=False` nothing is masked: the wrapper is the unmasked detector. -/
+theorem wrapper_noskip_spec (T : Tables α) (flags : Array Nat)
+    (hV : validB T = true) (hN : nodesBelowB T flags.size = true) :
+    containsUnaryNodes T flags false = some (hasLocallyUnary T) := by
+  apply detectors_agree T _ _ hV hN
+  intro p
+  simp only [wrapperMask, aget, Array.getElem?_map, Bool.false_and]
+  by_cases hp : p < flags.size <;> simp [hp]
 
 /-- Masking only removes rejections: whatever `variational_gamma`'s detector rejects, the
 discrete-time detector rejects too. -/
@@ -91,6 +138,9 @@ example : validB exT = true ∧ nodesBelowB exT 3 = true := by decide
 example : containsUnary exT #[false, false, false] 3 = some true := by decide
 example : containsUnary exT #[true, true, true] 3 = some false := by decide
 example : hasLocallyUnary exT = true := by decide
+/-- the unary node 2 carries `NODE_IS_RE_EVENT` (`1 <<< 17`): still detected; as a sample (`… + 1`): masked -/
+example : containsUnaryNodes exT #[1, 1, 131072] true = some true := by decide +kernel
+example : containsUnaryNodes exT #[1, 1, 131073] true = some false := by decide +kernel
 example : numChildrenAt exT 7 2 = 1 ∧ numChildrenAt exT 3 2 = 2 := by decide
 
 end Tsdate.C30
